@@ -16,7 +16,8 @@ Switches (one per branch/shortcut of vector_notation.py / array_indices.py):
          the form normalize_range_indexing targets)
   lb_r   declared lower bound of the other arrays b, e (same values) -> _compute_shifted_index
   rhs    same-shape section of the other array (default) | scalar broadcast | overlap_m1 / overlap_p1 (section of
-         the LHS array itself shifted by -1/+1: RHS-before-LHS rule) | colon (bare `:` against the LHS range) |
+         the LHS array itself shifted by -1/+1: RHS-before-LHS rule; overlap_m1_ucrhs / _uclhs spell the array in upper case
+         on the RHS / LHS only: `a(2:n) = A(1:n-1)`) | colon (bare `:` against the LHS range) |
          expr2 (expression of two sections) | reduction `sum(b(1:n))` (must stay) | array_fn (array-valued
          function of a section) | stride_mismatch (contiguous LHS, strided RHS or vice versa; is_aligned_dim
          only compares lower bounds)
@@ -152,7 +153,7 @@ MENU = {
     'lhs': [k for k in LHS_KINDS if k != 'one_n'],
     'lb_l': [0, -1, '1:'],
     'lb_r': [0, -1, '1:'],
-    'rhs': ['scalar', 'overlap_m1', 'overlap_p1', 'colon', 'expr2', 'reduction', 'array_fn', 'stride_mismatch'],
+    'rhs': ['scalar', 'overlap_m1', 'overlap_p1', 'overlap_m1_ucrhs', 'overlap_m1_uclhs', 'colon', 'expr2', 'reduction', 'array_fn', 'stride_mismatch'],
     'ctx': ['where', 'where1', 'where_else', 'loop_other', 'loop_same_range'],
 }
 BLOCKS = ['elem_nest', 'live_index', 'two_stmts', 'call_section', 'call_full', 'call_explicit', 'literal_list',
@@ -265,19 +266,22 @@ def build_program(sw):
     ldims = dims
     lbare = bare
     # ---- RHS
-    if rhs_kind in ('overlap_m1', 'overlap_p1'):
+    lname = arr
+    if rhs_kind.startswith('overlap_'):
         if bare or lhs_kind == 'full':
             return None
         k = first
         _, lo, hi, st, _c = dims[k]
         ldims, rdims = explicit(dims), explicit(dims)
-        if rhs_kind == 'overlap_m1':      # a(2:n) = a(1:n-1)
+        if rhs_kind.startswith('overlap_m1'):      # a(2:n) = a(1:n-1)
             ldims[k] = rng((lo[0], lo[1] + 1), hi, st)
             rdims[k] = rng(lo, (hi[0], hi[1] - 1), st)
         else:                              # a(1:n-1) = a(2:n)
             ldims[k] = rng(lo, (hi[0], hi[1] - 1), st)
             rdims[k] = rng((lo[0], lo[1] + 1), hi, st)
-        rhs = reftxt(arr, la, rdims)
+        # the same array spelled in the other letter case on one side (Fortran names are case-insensitive)
+        rhs = reftxt(arr.upper() if rhs_kind.endswith('_ucrhs') else arr, la, rdims)
+        lname = arr.upper() if rhs_kind.endswith('_uclhs') else arr
     elif rhs_kind == 'stride_mismatch':
         if lhs_kind == 'one_n':            # a(1:h) = b(1:2h-1:2)  -> written with n: h elements 1,3,..
             ldims = [rng(N1, H)]
@@ -306,7 +310,7 @@ def build_program(sw):
             rhs = f'twice({same})'
         else:
             raise ValueError(rhs_kind)
-    lhs = reftxt(arr, la, ldims, lbare)
+    lhs = reftxt(lname, la, ldims, lbare)
     stmt = f'{lhs} = {rhs}'
     mask = f'{reftxt(oth, lb, explicit(ldims))} > 0.75'
 
